@@ -298,7 +298,8 @@ type Case struct {
 	Msgs []Msg    `json:"msgs,omitempty"`
 	Slow bool     `json:"slow,omitempty"` // attacker does not read replies while sending
 	// d
-	Obj *Obj `json:"obj,omitempty"`
+	Obj  *Obj   `json:"obj,omitempty"`
+	Lazy string `json:"lazy,omitempty"` // fixed list only: build Obj from the fixture at execution time (the logged case carries the result)
 }
 
 // ---- crash signature, same normal form as the driver's (check: crash_signature) ----
